@@ -375,11 +375,13 @@ fn check_wellformed<'a>(
         let nd_tt = walker.tt(nd);
         canon(ctx, nd, &nd_tt, "reachable node");
         let idx = nd.vtree();
-        let vt = b.vtree_manager().vtree(idx);
-        let (lvars, rvars): (Vec<usize>, Vec<usize>) = match vt {
-            BTree::Node(_, l, r) => (vtree_vars(l), vtree_vars(r)),
-            BTree::Leaf(_) => {
-                viol(ctx, "sdd.wf.vtree", "decision node normalised for a vtree leaf", json!({"index": idx.value()}));
+        // the vtree position is looked up in the harness's own tree (in-order numbering),
+        // not through the manager under test
+        let inorder = cfg.vtree.inorder();
+        let (lvars, rvars): (Vec<usize>, Vec<usize>) = match inorder.get(idx.value()) {
+            Some(Vt::Node(l, r)) => (l.leaves(), r.leaves()),
+            _ => {
+                viol(ctx, "sdd.wf.vtree", "decision node normalised for a vtree leaf or an index outside the vtree", json!({"index": idx.value()}));
                 continue;
             }
         };
